@@ -4,7 +4,7 @@ foreign images; plus C20's single-fault reads)."""
 from checklib import *
 import c20
 
-VARIANTS = ['none', 'order_big', 'order_plus1', 'order_missing', 'naxis_small', 'naxis_large', 'knots_missing', 'knots_short', 'knots_long', 'knots_unsorted', 'knots_nan', 'knots_nan_first', 'knots_ninf_first', 'knots_pinf_last', 'extents_short', 'foreign', 'naxis0']
+VARIANTS = ['none', 'order_big', 'order_plus1', 'order_missing', 'naxis_small', 'naxis_large', 'knots_missing', 'knots_short', 'knots_long', 'knots_unsorted', 'knots_nan', 'knots_nan_first', 'knots_ninf_first', 'knots_pinf_last', 'extents_short', 'extents_long', 'foreign', 'naxis0']
 def build_cases(tier):
     shapes = [([1, 0], [1, 1], 1)] if tier == 'quick' else [([1, 0], [1, 1], 1), ([2], [2], 0), ([0, 1, 2], [1, 0, 1], 2)]
     return [c20.case('C07', 'corrupt:' + v, o, e, a) for (o, e, a) in shapes for v in VARIANTS]
